@@ -195,6 +195,8 @@ def impl_estimate(rounds, h, q, dataset):
         return 'AssertionError'
     except IndexError:
         return 'IndexError'
+    except Exception as e:  # noqa — any other exception is an answer the model does not give: a disagreement, not a crash
+        return 'EXC:' + type(e).__name__
 
 
 def estimate_queries(c):
